@@ -183,7 +183,7 @@ def enc_op(m):
             body += ber.octets(_h(m["value"]), CONTEXT, 1)
     elif t == "ExtendedResponse":
         body = enc_result(m["result"])
-        if m["name"] is not None:
+        if m["name"] is not None and not m.get("ms_adts"):
             body += ber.octets(_s(m["name"]), CONTEXT, 10)
         if m["value"] is not None:
             body += ber.octets(_h(m["value"]), CONTEXT, 11)
@@ -196,6 +196,9 @@ def enc_msg(m, outer_form=None):
     parts = [ber.integer(m["id"]), enc_op(m)]
     if m.get("controls"):
         parts.append(ber.tlv(CONTEXT, True, 0, b"".join(enc_control(c) for c in m["controls"])))
+    if m.get("ms_adts") and m.get("t") == "ExtendedResponse" and m.get("name") is not None:
+        # MS-ADTS NoticeOfDisconnectionLDAPMessage: responseName [10] at the envelope level (Active Directory)
+        parts.append(ber.octets(_s(m["name"]), CONTEXT, 10))
     return ber.sequence(parts, form=outer_form)
 
 
